@@ -170,14 +170,17 @@ Section Level.
   Qed.
 
   Lemma filters_compat : forall nu e fs,
-      compat nu e -> (forall f, In f fs -> bound e (fvar f)) ->
+      compat nu e -> (forall f x, In f fs -> In x (filter_vars f) -> bound e x) ->
       forallb (filter_holds num (env_val e)) fs = forallb (filter_holds num nu) fs.
   Proof.
     intros nu e fs Hc Hb. induction fs as [|f fs IH]; [reflexivity|]. cbn.
-    rewrite IH by (intros g Hg; apply Hb; now right). f_equal.
-    unfold filter_holds. f_equal. f_equal.
-    specialize (Hb f (or_introl eq_refl)). unfold bound in Hb. unfold env_val.
-    destruct (lookup (fvar f) e) as [k|] eqn:E; [|congruence]. symmetry. now apply Hc.
+    rewrite IH by (intros g x Hg Hx; apply (Hb g x); [now right|assumption]). f_equal.
+    assert (V : forall x, In x (filter_vars f) -> env_val e x = nu x).
+    { intros x Hx. specialize (Hb f x (or_introl eq_refl) Hx). unfold bound in Hb. unfold env_val.
+      destruct (lookup x e) as [k|] eqn:E; [|congruence]. symmetry. now apply Hc. }
+    destruct f as [x op [z|y]]; unfold filter_holds; cbn in *.
+    - now rewrite (V x (or_introl eq_refl)).
+    - now rewrite (V x (or_introl eq_refl)), (V y (or_intror (or_introl eq_refl))).
   Qed.
 
   Lemma rule_consequences_spec : forall db r f,
@@ -203,7 +206,7 @@ Section Level.
       rewrite (filters_compat nu e (filters r) Ce), Hf.
       + apply in_map_iff. exists c. split; [|assumption]. apply eval_atom_compat; [assumption|].
         intros x Hx. apply Hb. apply mem_In. apply S1. unfold atoms_vars. apply in_flat_map. eauto.
-      + intros g Hg. apply Hb. apply mem_In. now apply S2.
+      + intros g x Hg Hx. apply Hb. apply mem_In. specialize (S2 g Hg). rewrite forallb_forall in S2. now apply S2.
   Qed.
 
   Lemma step_spec : forall db f,
